@@ -440,6 +440,233 @@ def standin_states_and_cliffords(tier, seed):
     return R.out(F + ":state preparation, Clifford tableau synthesis, cphase->fsim", "states-cliffords", "10 special + random two-qubit states x 3 gate sets; random Clifford circuits on 1-4 qubits; cphase angles x 3 fsim gates")
 standin_states_and_cliffords.prop = "C15"
 
-STANDINS = [standin_kak, standin_single_qubit, standin_linalg, standin_two_qubit_synthesis, standin_multi_qubit, standin_states_and_cliffords]
+def standin_more_routines(tier, seed):
+    """the remaining decomposition / linear-algebra routines, each against the reconstruction its docstring promises"""
+    import cirq
+    import sympy
+    from contracts import refsim
+
+    warnings.simplefilter("ignore")
+    rng = random.Random(seed + 13)
+    R = _Rec()
+    q0, q1 = cirq.LineQubit.range(2)
+    two = special_two_qubit(rng, 6 if tier == "quick" else 120)
+    diag_inputs = [np.kron(np.eye(2), cirq.unitary(cirq.Z ** 0.3)), np.kron(cirq.unitary(cirq.T), cirq.unitary(cirq.S)), np.diag(np.exp(1j * np.array([0.1, 0.7, -0.4, 1.3]))),
+                   np.kron(cirq.unitary(cirq.Z ** 0.3), np.eye(2)), np.diag([1, 1j, 1, 1j]), np.diag([1, 1, 1j, 1j])]
+    two = two + [("diagonal", d) for d in diag_inputs] + [("diagonal then random local", np.kron(cirq.testing.random_unitary(2, random_state=3), np.eye(2)) @ d) for d in diag_inputs[:3]]
+    for label, u in two:
+        for partial in (False, True):
+            for clean in (True, False):
+                # V = circuit(ops) @ D, D diagonal, at most 2 CZ
+                R.cases += 1
+                try:
+                    d, ops_ = cirq.two_qubit_matrix_to_diagonal_and_cz_operations(q0, q1, u, allow_partial_czs=partial, clean_operations=clean)
+                except Exception as ex:
+                    R.bad(f"two_qubit_matrix_to_diagonal_and_cz_operations raised {type(ex).__name__}", matrix=u)
+                    continue
+                cu = cirq.Circuit(ops_).unitary(qubit_order=[q0, q1], qubits_that_should_be_present=[q0, q1]) if ops_ else np.eye(4)
+                if not np.allclose(d, np.diag(np.diag(d)), atol=1e-7) or not cirq.is_unitary(d, atol=1e-6):
+                    R.bad("two_qubit_matrix_to_diagonal_and_cz_operations: D is not a diagonal unitary", matrix=u)
+                elif not cirq.allclose_up_to_global_phase(cu @ d, u, atol=1e-5):
+                    R.bad("two_qubit_matrix_to_diagonal_and_cz_operations: circuit(ops) @ D differs from the input (beyond global phase)", matrix=u, kind=label)
+                elif sum(1 for o in ops_ if len(o.qubits) == 2) > 2:
+                    R.bad("two_qubit_matrix_to_diagonal_and_cz_operations uses more than 2 two-qubit gates", matrix=u)
+                # isometry: with q0 in |0>, the circuit acts like the matrix (one global phase for both columns)
+                R.cases += 1
+                try:
+                    iso = cirq.two_qubit_matrix_to_cz_isometry(q0, q1, u, allow_partial_czs=partial, clean_operations=clean)
+                except Exception as ex:
+                    R.bad(f"two_qubit_matrix_to_cz_isometry raised {type(ex).__name__}", matrix=u)
+                    continue
+                iu = cirq.Circuit(iso).unitary(qubit_order=[q0, q1], qubits_that_should_be_present=[q0, q1]) if iso else np.eye(4)
+                if not cirq.allclose_up_to_global_phase(iu[:, :2], u[:, :2], atol=1e-5):
+                    R.bad("two_qubit_matrix_to_cz_isometry: the circuit differs from the matrix on states with q0 = |0> (beyond one global phase)", matrix=u, kind=label, allow_partial_czs=partial, clean_operations=clean)
+                elif sum(1 for o in iso if len(o.qubits) == 2) > 2:
+                    R.bad("two_qubit_matrix_to_cz_isometry uses more than 2 two-qubit gates", matrix=u)
+        # extract_right_diag: a diagonal unitary
+        R.cases += 1
+        try:
+            dd = cirq.linalg.extract_right_diag(u)
+            if not np.allclose(dd, np.diag(np.diag(dd)), atol=1e-7) or not cirq.is_unitary(dd, atol=1e-6):
+                R.bad("extract_right_diag does not return a diagonal unitary", matrix=u)
+        except Exception as ex:
+            R.bad(f"extract_right_diag raised {type(ex).__name__}", matrix=u)
+        # unitary_eig: V diag(w) V^dagger, V unitary
+        R.cases += 1
+        w, v = cirq.unitary_eig(u)
+        if not cirq.is_unitary(v, atol=1e-6) or not np.allclose(v @ np.diag(w) @ v.conj().T, u, atol=1e-6):
+            R.bad("unitary_eig: V diag(w) V^dagger differs from the matrix, or V is not unitary", matrix=u)
+        # to_special / match_global_phase
+        R.cases += 1
+        su = cirq.to_special(u)
+        if abs(np.linalg.det(su) - 1) > 1e-6 or not cirq.allclose_up_to_global_phase(su, u, atol=1e-7):
+            R.bad("to_special: result is not det-1 or not proportional to the input", matrix=u)
+        ph = np.exp(1j * rng.uniform(0, 6))
+        a_, b_ = cirq.match_global_phase(u, u * ph)
+        if not np.allclose(a_, b_, atol=1e-7):
+            R.bad("match_global_phase does not align two matrices that differ by a global phase", matrix=u)
+    # bidiagonalisation and simultaneous diagonalisation
+    for _ in range(20 if tier == "quick" else 300):
+        n = rng.choice([2, 3, 4])
+        rs = np.random.RandomState(rng.randrange(10 ** 6))
+        L0, R0 = cirq.testing.random_orthogonal(n, random_state=rs), cirq.testing.random_orthogonal(n, random_state=rs)
+        d1 = np.diag(rs.randn(n) * rs.choice([0, 1, 1], size=n))
+        d2 = np.diag(rs.randn(n) * rs.choice([0, 1, 1], size=n))
+        if rng.random() < 0.3:
+            d1[0, 0] = d1[1, 1]  # degenerate values
+        m1, m2 = L0 @ d1 @ R0, L0 @ d2 @ R0
+        R.cases += 1
+        try:
+            Lm, Rm = cirq.bidiagonalize_real_matrix_pair_with_symmetric_products(m1, m2)
+            for m in (m1, m2):
+                x = Lm @ m @ Rm
+                if not np.allclose(x, np.diag(np.diag(x)), atol=1e-6):
+                    R.bad("bidiagonalize_real_matrix_pair_with_symmetric_products: L @ m @ R is not diagonal", mat1=m1, mat2=m2)
+                    break
+            if not (cirq.is_orthogonal(Lm, atol=1e-6) and cirq.is_orthogonal(Rm, atol=1e-6)):
+                R.bad("bidiagonalize_real_matrix_pair_with_symmetric_products: L or R is not orthogonal", mat1=m1, mat2=m2)
+        except Exception as ex:
+            R.bad(f"bidiagonalize_real_matrix_pair_with_symmetric_products raised {type(ex).__name__} on a valid pair", mat1=m1, mat2=m2)
+        # symmetric matrix commuting with a sorted diagonal: block structure along equal diagonal entries
+        vals = sorted([rng.choice([2.0, 1.0, 1.0, 0.5, -1.0]) for _ in range(n)], reverse=True)
+        D = np.diag(vals)
+        S = np.zeros((n, n))
+        i = 0
+        while i < n:
+            j = i
+            while j < n and vals[j] == vals[i]:
+                j += 1
+            blk = rs.randn(j - i, j - i)
+            S[i:j, i:j] = blk + blk.T
+            i = j
+        R.cases += 1
+        try:
+            P = cirq.diagonalize_real_symmetric_and_sorted_diagonal_matrices(S, D)
+            x = P.T @ S @ P
+            if not cirq.is_orthogonal(P, atol=1e-6) or not np.allclose(x, np.diag(np.diag(x)), atol=1e-6) or not np.allclose(P.T @ D @ P, D, atol=1e-6):
+                R.bad("diagonalize_real_symmetric_and_sorted_diagonal_matrices: P does not diagonalise S while fixing D", symmetric=S, diagonal=D)
+        except Exception as ex:
+            R.bad(f"diagonalize_real_symmetric_and_sorted_diagonal_matrices raised {type(ex).__name__} on valid input", symmetric=S, diagonal=D)
+    # Pauli-string recognition, Pauli-combination powers, reflections
+    for _ in range(30 if tier == "quick" else 300):
+        n = rng.choice([1, 2, 3])
+        mask = "".join(rng.choice("IXYZ") for _ in range(n))
+        coef = rng.choice([1, -1, 1j, -1j])
+        dps = cirq.DensePauliString(mask, coefficient=coef)
+        m = cirq.unitary(dps)
+        R.cases += 1
+        got = cirq.transformers.unitary_to_pauli_string(m)
+        if got is None or not np.allclose(cirq.unitary(got), m, atol=1e-8):
+            R.bad("unitary_to_pauli_string does not recognise a phased Pauli string (or returns one with a different matrix)", pauli=repr(dps), got=repr(got))
+        notp = m.copy()
+        notp[0, 0] += 0.5
+        if cirq.transformers.unitary_to_pauli_string(notp) is not None and not np.allclose(cirq.unitary(cirq.transformers.unitary_to_pauli_string(notp)), notp, atol=1e-8):
+            R.bad("unitary_to_pauli_string returns a Pauli string for a matrix that is none", matrix=notp)
+        P = lambda c: c[0] * np.eye(2) + c[1] * cirq.unitary(cirq.X) + c[2] * cirq.unitary(cirq.Y) + c[3] * cirq.unitary(cirq.Z)
+        for _c in range(8):
+            ai, ax, ay, az = (complex(rng.choice([0, 0.5, -1, 0.3 + 0.2j, 1j, 1, 2])) for _ in range(4))
+            k = rng.randrange(0, 7)
+            R.cases += 1
+            bi, bx, by, bz = cirq.pow_pauli_combination(ai, ax, ay, az, k)
+            if not np.allclose(P((bi, bx, by, bz)), np.linalg.matrix_power(P((ai, ax, ay, az)), k), atol=1e-8):
+                R.bad("pow_pauli_combination is not the matrix power", coefficients=(ai, ax, ay, az), exponent=k)
+        axis = np.array([rng.gauss(0, 1) for _ in range(3)])
+        axis /= np.linalg.norm(axis)
+        refl = axis[0] * cirq.unitary(cirq.X) + axis[1] * cirq.unitary(cirq.Y) + axis[2] * cirq.unitary(cirq.Z)
+        e = rng.choice([0.5, 0.25, -0.5, 1.5, 2, 0.37])
+        R.cases += 1
+        rp = cirq.reflection_matrix_pow(refl, e)
+        w_, v_ = np.linalg.eigh(refl)
+        want = v_ @ np.diag([np.exp(1j * np.pi * e) if x < 0 else 1 for x in w_]) @ v_.conj().T
+        if not np.allclose(rp, want, atol=1e-8):
+            R.bad("reflection_matrix_pow is not the eigen-decomposition power (eigenvalue -1 -> exp(i pi e))", exponent=e, matrix=refl)
+    # basis expansion round trip, kron_with_controls, block_diag
+    for _ in range(10 if tier == "quick" else 100):
+        m = np.array([[complex(rng.gauss(0, 1), rng.gauss(0, 1)) for _ in range(4)] for _ in range(4)])
+        basis = cirq.kron_bases(cirq.PAULI_BASIS, repeat=2)
+        R.cases += 1
+        ex_ = cirq.expand_matrix_in_orthogonal_basis(m, basis)
+        if not np.allclose(cirq.matrix_from_basis_coefficients(ex_, basis), m, atol=1e-8):
+            R.bad("matrix_from_basis_coefficients(expand_matrix_in_orthogonal_basis(m)) != m", matrix=m)
+        u2 = cirq.testing.random_unitary(2, random_state=rng.randrange(10 ** 6))
+        kc = cirq.kron_with_controls(cirq.CONTROL_TAG, u2)
+        if not np.allclose(kc, np.block([[np.eye(2), np.zeros((2, 2))], [np.zeros((2, 2)), u2]]), atol=1e-8):
+            R.bad("kron_with_controls(CONTROL_TAG, U) is not diag(I, U)", matrix=u2)
+        kc2 = cirq.kron_with_controls(u2, cirq.CONTROL_TAG)
+        want2 = np.eye(4, dtype=complex)
+        want2[np.ix_([1, 3], [1, 3])] = u2
+        if not np.allclose(kc2, want2, atol=1e-8):
+            R.bad("kron_with_controls(U, CONTROL_TAG) does not apply U on the first qubit exactly when the second is 1", matrix=u2)
+        bd = cirq.block_diag(u2, np.array([[5.0]]), u2 * 2)
+        wantbd = np.zeros((5, 5), dtype=complex)
+        wantbd[:2, :2], wantbd[2, 2], wantbd[3:, 3:] = u2, 5, u2 * 2
+        if not np.allclose(bd, wantbd):
+            R.bad("block_diag does not place the blocks on the diagonal", matrix=u2)
+    # partial traces and sub-states; targeted multiplication
+    for _ in range(10 if tier == "quick" else 100):
+        n = rng.choice([2, 3])
+        psi = cirq.testing.random_superposition(2 ** n, random_state=rng.randrange(10 ** 6))
+        rho = np.outer(psi, psi.conj()).reshape((2,) * (2 * n))
+        keep = sorted(rng.sample(range(n), rng.randrange(1, n)))
+        R.cases += 1
+        pt = cirq.partial_trace(rho, keep)
+        full = np.outer(psi, psi.conj())
+        want = np.zeros((2 ** len(keep),) * 2, dtype=complex)
+        for i in range(2 ** n):
+            for j in range(2 ** n):
+                bi_ = [(i >> (n - 1 - t)) & 1 for t in range(n)]
+                bj_ = [(j >> (n - 1 - t)) & 1 for t in range(n)]
+                if all(bi_[t] == bj_[t] for t in range(n) if t not in keep):
+                    a_i = int("".join(str(bi_[t]) for t in keep), 2)
+                    a_j = int("".join(str(bj_[t]) for t in keep), 2)
+                    want[a_i, a_j] += full[i, j]
+        if not np.allclose(pt.reshape(want.shape), want, atol=1e-8):
+            R.bad("partial_trace differs from summing over the traced-out indices", keep=keep, n=n)
+        mix = cirq.partial_trace_of_state_vector_as_mixture(psi, keep)
+        acc = sum(p_ * np.outer(v_, np.conj(v_)) for p_, v_ in mix)
+        if not np.allclose(acc, want, atol=1e-7):
+            R.bad("partial_trace_of_state_vector_as_mixture does not sum to the reduced density matrix", keep=keep, n=n)
+        a_ = cirq.testing.random_superposition(2, random_state=rng.randrange(10 ** 6))
+        b_ = cirq.testing.random_superposition(4, random_state=rng.randrange(10 ** 6))
+        prod = np.kron(a_, b_)
+        sub = cirq.sub_state_vector(prod, [0], atol=1e-6)
+        if sub is None or abs(abs(np.vdot(sub, a_)) - 1) > 1e-6:
+            R.bad("sub_state_vector does not recover a tensor factor of a product state", n=3)
+        u2 = cirq.testing.random_unitary(4, random_state=rng.randrange(10 ** 6)).reshape((2, 2, 2, 2))
+        t = cirq.testing.random_superposition(8, random_state=rng.randrange(10 ** 6)).reshape((2, 2, 2))
+        axes = rng.sample(range(3), 2)
+        got = cirq.targeted_left_multiply(u2, t, axes)
+        qs3 = cirq.LineQubit.range(3)
+        wantv = refsim.embed(u2.reshape(4, 4), [qs3[axes[0]], qs3[axes[1]]], list(qs3)) @ t.reshape(8)
+        R.cases += 1
+        if not np.allclose(got.reshape(8), wantv, atol=1e-8):
+            R.bad("targeted_left_multiply differs from the embedded matrix applied to the flattened tensor", axes=axes)
+    # parameterized two-qubit operations to sqrt-iSWAP
+    a_s, b_s = sympy.Symbol("a"), sympy.Symbol("b")
+    for mk in (lambda: cirq.CZ(q0, q1) ** a_s, lambda: cirq.SWAP(q0, q1) ** a_s, lambda: cirq.ISWAP(q0, q1) ** a_s, lambda: cirq.FSimGate(a_s, b_s).on(q0, q1), lambda: cirq.CZ(q1, q0) ** a_s,
+               lambda: cirq.ISWAP(q1, q0) ** a_s, lambda: cirq.FSimGate(a_s, 0.3).on(q1, q0)):
+        for inv in (False, True):
+            op = mk()
+            dec = cirq.parameterized_2q_op_to_sqrt_iswap_operations(op, use_sqrt_iswap_inv=inv)
+            if dec is None or dec is NotImplemented:
+                continue
+            dec = list(cirq.flatten_to_ops(dec))  # the result may be a generator: materialise it once
+            for a_val in [1.0, 0.0, 2.0, 0.5, -1.0] + [rng.choice([0.25, -0.7, 1.3, 1.5, 0.1]) for _ in range(2 if tier == "quick" else 8)]:
+                vals = {"a": a_val, "b": rng.choice([0.0, 0.4, np.pi / 2, -1.1])}
+                R.cases += 1
+                try:
+                    got = cirq.resolve_parameters(cirq.Circuit(dec), vals).unitary(qubit_order=[q0, q1], qubits_that_should_be_present=[q0, q1])
+                except Exception as ex:
+                    R.bad(f"parameterized_2q_op_to_sqrt_iswap_operations: resolving the decomposition raised {type(ex).__name__}", operation=op, values=vals, use_sqrt_iswap_inv=inv, error=str(ex)[:150])
+                    continue
+                want = cirq.Circuit(cirq.resolve_parameters(op, vals)).unitary(qubit_order=[q0, q1], qubits_that_should_be_present=[q0, q1])
+                if not cirq.allclose_up_to_global_phase(got, want, atol=1e-6):
+                    R.bad("parameterized_2q_op_to_sqrt_iswap_operations: resolved decomposition differs from the resolved operation (beyond global phase)", operation=op, values=vals, use_sqrt_iswap_inv=inv)
+                if any(len(o.qubits) == 2 and o.gate not in (cirq.SQRT_ISWAP, cirq.SQRT_ISWAP_INV) for o in cirq.Circuit(dec).all_operations()):
+                    R.bad("parameterized_2q_op_to_sqrt_iswap_operations uses a two-qubit gate other than sqrt-iSWAP", operation=op)
+    return R.out("cirq-core/cirq/linalg+transformers/analytical_decompositions:diagonal+CZ factorisation, isometry, eigen / (bi)diagonalisation, Pauli recognition and powers, basis expansion, partial traces, parameterized sqrt-iSWAP",
+                 "more-routines", "named / boundary / diagonal / random two-qubit unitaries x options; seeded real matrix pairs with degenerate values; Pauli strings on 1-3 qubits; random tensors")
+standin_more_routines.prop = "C15"
+STANDINS = [standin_kak, standin_single_qubit, standin_linalg, standin_two_qubit_synthesis, standin_multi_qubit, standin_states_and_cliffords, standin_more_routines]
 NOT_COVERED = ["two_qubit_gate_tabulation (heuristic, statistical guarantees)", "gate-count optimality beyond the documented upper bounds"]
 EXPLANATION = "all numeric decomposition and synthesis routines: bounded stand-ins on special (measure-zero), near-tolerance and random inputs. "
